@@ -235,6 +235,7 @@ class C04Conv(ConvRef):
                          "at the end of instant %s a space request waits although the belt has free capacity, the last item has moved %.6g >= %.6g and the belt is not stalled"
                          % (w.now, self.s[self.order[-1]] if self.order else -1, self.tau), side="p",
                          **self.facets(w, last_entered_during_stall=bool(self.order) and self.order[-1] in self.entered_stalled,
+                                       last_not_touching_at_stall=bool(self.order) and self.order[-1] in self.not_touching,
                                        after_stall=self.ever_stalled)))
         return out
 
